@@ -35,6 +35,10 @@ func (h logsResourceHandler) ResolveFilter(_ common.ResourceQuery[any], operator
 	case "id":
 		return fmt.Sprintf("id %s ?", common.ConvertOperatorToSQL(operator)), []any{value}, nil
 	case "type":
+		if operator == queries.OperatorIn {
+			// filter validation accepts $in on this string field; it has no ConvertOperatorToSQL form
+			return "type IN (?)", []any{bun.In(value)}, nil
+		}
 		return fmt.Sprintf("type %s ?", common.ConvertOperatorToSQL(operator)), []any{value}, nil
 	default:
 		return "", nil, fmt.Errorf("unknown key '%s' when building query", property)
